@@ -21,7 +21,8 @@ LEVEL_TEXT = ('For each of the three DASL targets every image (opcode x 6 second
               'distance in the boundary sets (page positions FD/FE/FF/00 for the 4004) is disassembled from its entry point, re-assembled, and - '
               'for images the assembler itself produced - disassembled and re-assembled again; bytes must be identical over the reported '
               'areas, which must be disjoint and inside the image. Loading via -binfile and via Intel hex is compared.'
-              ' Every form of the 6800 and 4004 reference tables of C14 and every statement of the golden sources of the three targets is round-tripped as a one-instruction program (assembler-driven, so a consistent mis-decoding cannot hide behind normalisation); Intel-hex records are also presented in descending order.')
+              ' Every form of the 6800 and 4004 reference tables of C14 and every statement of the golden sources of the three targets is round-tripped as a one-instruction program (assembler-driven, so a consistent mis-decoding cannot hide behind normalisation); Intel-hex records are also presented in descending order.'
+              ' Programs with 255-byte hex records, code running up to the last address, extended addressing forced onto direct-page addresses and jump-like bytes behind return instructions are included.')
 LEVEL_NOTE = ('Trusted: asl as producer of the "valid program" images (its encodings are the subject of C14). Where DASL output is rejected by '
               'the strict target syntax, the round trip is continued under RELAXED ON so that byte-level defects stay visible; the rejection '
               'itself is reported with its own signature.')
